@@ -921,7 +921,7 @@ class C08:
             "rotating over host ErrorKinds and failing built-in operations) when the path has <= MAX_ENUM points, plus sampled "
             "multi-fault plans whose later faults are placed on points reached only after the earlier fault (inside catch/"
             "finally/after recovery); every plan runs in the checked and the release profile. distinct_nontrivial = distinct "
-            "(nest, plan) hashes among executions that fired >= 1 fault or executed >= 1 throw")
+            "(nest, plan) hashes among executions that fired >= 1 fault or executed >= 1 throw 1/128 of the plans also run on the optimised build collecting at every allocation under valgrind memcheck.")
     COMPONENTS = {"real": ["yarel compiler", "yarel VM (unwind_stack, JumpFinally/EndFinally, call_native error path)",
                            "yarel core library error classes", "fiber switch for fiber-wrapped callees"],
                   "stub": ["fault-point native installed through Vm::set_printer (returns Err(kind) or an op code on the simulator's say-so)",
